@@ -152,9 +152,13 @@ TQuiescent == Step("quiescent") /\ UNCHANGED <<avars, scen, pvars, call, wires, 
    ELSE NoFlag
 TPanic == Step("panic") /\ UNCHANGED <<avars, scen, pvars, call, wires, blocked, subv>> /\ Flag(IF stype = "SUB" THEN "C13/panic-on-failing-peer" ELSE "C03/panic")
 THarness == Step("harness_error") /\ UNCHANGED <<avars, scen, pvars, call, wires, blocked, subv>> /\ Flag("harness/script-error")
-Ignored == {"observed", "peer_part", "peer_bytes", "released", "recv_call", "recv_pending", "recv_dropped", "send_dropped", "end", "expect_wire", "sub_ret", "sub_dropped"}
+Ignored == {"observed", "peer_part", "peer_bytes", "released", "recv_call", "recv_pending", "recv_dropped", "send_dropped", "end", "sub_ret", "sub_dropped"}
 TIgnore == l <= NRec /\ E.ev \in Ignored /\ l' = l + 1 /\ UNCHANGED <<avars, scen, pvars, call, wires, blocked, subv>> /\ NoFlag
-TNext == TReset \/ TAttachCall \/ TAttachPending \/ TAttachRet \/ TWrote \/ TCut \/ TPipe \/ TRecvRet \/ TSendCall \/ TSendPending \/ TWire \/ TSendRet
+\* a message that was accepted for a subscriber (the publishes of the scenario stay far below the high-water mark, so nothing may
+\* have been dropped) has not reached it although its connection takes every write again and the socket is at rest
+TExpectWire == Step("expect_wire") /\ UNCHANGED <<avars, scen, pvars, call, wires, blocked, subv>> /\
+   IF E.ok THEN NoFlag ELSE Flag("C12/accepted-message-withheld:" \o stype)
+TNext == TExpectWire \/ TReset \/ TAttachCall \/ TAttachPending \/ TAttachRet \/ TWrote \/ TCut \/ TPipe \/ TRecvRet \/ TSendCall \/ TSendPending \/ TWire \/ TSendRet
          \/ TSubCall \/ TSubPending \/ TQuiescent \/ TPanic \/ THarness \/ TIgnore
 TSpec == TInit /\ [][TNext]_tvars
 Accepted == Consumed
